@@ -131,10 +131,11 @@ pub fn call(name: &str, a: &Args, i: &[u8]) -> Option<Out> {
         }
         "two_step" => c!(i, |i| {
             // position reached = where decoding of the payload stopped inside the input (TlsRecord!TwoStep): the payload's
-            // remainder is a sub-slice of the input, not a suffix of it, so it is re-expressed as the input's tail from there
+            // remainder is a tail of the payload, not of the input, so it is re-expressed as the input's tail from there
             let (_, r) = parse_tls_raw_record(i)?;
             let (rem2, msgs) = parse_tls_record_with_header(r.data, &r.hdr)?;
-            let pos = rem2.as_ptr() as usize - i.as_ptr() as usize;
+            // (by lengths, not addresses: parse_tls_message_applicationdata returns a static empty slice as remainder)
+            let pos = 5 + r.data.len() - rem2.len();
             Ok((&i[pos..], msgs))
         }, |v: &Vec<TlsMessage>| pj::msgs(v)),
         // ---- messages
